@@ -67,7 +67,16 @@ Section Loud.
   Lemma elem_key_none : forall t, rm_lookup reg (stripped t) = None -> elem_key reg t = Err E_UNKNOWN_TYPE.
   Proof. intros t H. unfold elem_key. unfold stripped in H. now rewrite (lookup_name_none _ H). Qed.
   Lemma enc_key_np : forall k, enc_key JK kenc k <> Panic.
-  Proof. destruct k; simpl; try discriminate; apply kenc_np. Qed.
+  Proof.
+    induction k using val_ind'; simpl; try discriminate.
+    - destruct (kenc b l) eqn:E; simpl; try discriminate. exfalso. eapply kenc_np; eauto.
+    - destruct (kenc b l) eqn:E; simpl; try discriminate. exfalso. eapply kenc_np; eauto.
+    - destruct (mapM (fun fv => do j <- enc_key JK kenc (snd fv); Ok (fst fv, j)) fs) eqn:E; simpl; try discriminate.
+      exfalso. revert E. apply mapM_no_panic. intros [f w] Hin. rewrite Forall_forall in H.
+      specialize (H _ Hin). simpl in *. destruct (enc_key JK kenc w); simpl; try discriminate. congruence.
+    - destruct (mapM (enc_key JK kenc) es) eqn:E; simpl; try discriminate.
+      exfalso. revert E. apply mapM_no_panic. intros e Hin. rewrite Forall_forall in H. now apply H.
+  Qed.
 
   Ltac bind_np :=
     match goal with
@@ -210,6 +219,26 @@ Section Complete.
     rewrite Hk. simpl. eauto.
   Qed.
 
+  Lemma enc_key_ok : forall a, kval a = true ->
+    Forall (fun bl => (exists j, jenc (fst bl) (snd bl) = Ok j) /\ (exists j, kenc (fst bl) (snd bl) = Ok j))
+           (lits_of a) ->
+    exists kj, enc_key JK kenc a = Ok kj.
+  Proof.
+    induction a using val_ind'; intros Hk He; simpl in Hk; try discriminate Hk; simpl in He.
+    - inversion He as [|? ? [_ [j Hj]] _]; subst. simpl in Hj. simpl. rewrite Hj. simpl. eauto.
+    - inversion He as [|? ? [_ [j Hj]] _]; subst. simpl in Hj. simpl. rewrite Hj. simpl. eauto.
+    - apply Forall_flat_map in He.
+      destruct (mapM_all_ok (fun fv => do j <- enc_key JK kenc (snd fv); Ok (fst fv, j)) fs) as [l Hl].
+      { intros [f w] Hin. rewrite Forall_forall in H, He. rewrite forallb_forall in Hk.
+        destruct (H _ Hin (Hk _ Hin) (He _ Hin)) as [kj Hkj]. simpl in *. rewrite Hkj. simpl. eauto. }
+      simpl. rewrite Hl. simpl. eauto.
+    - apply Forall_flat_map in He.
+      destruct (mapM_all_ok (enc_key JK kenc) es) as [l Hl].
+      { intros e Hin. rewrite Forall_forall in H, He. rewrite forallb_forall in Hk.
+        exact (H _ Hin (Hk _ Hin) (He _ Hin)). }
+      simpl. rewrite Hl. simpl. eauto.
+  Qed.
+
   Lemma enc_succeeds_all : forall v,
     wt env v = true -> registered v -> encodable v -> defs_registered v ->
     forall pn, (is_iface (ty_of v) = true -> pn = 0%nat) -> exists oi, ENC pn v = Ok oi.
@@ -259,24 +288,23 @@ Section Complete.
       simpl. rewrite Hk. simpl. rewrite Hv. simpl.
       rewrite wt_map in Hwt. apply andb_true_iff in Hwt. destruct Hwt as [Hkt Hwt].
       apply andb_true_iff in Hkt. destruct Hkt as [Hkt _].
-      apply andb_true_iff in Hwt. destruct Hwt as [Hwt _].
-      assert (Hw : Forall (fun kv => wt env (fst kv) = true /\ is_basic_ty (ty_of (fst kv)) = true
-                                     /\ wt env (snd kv) = true) kvs).
-      { clear -Hwt Hkt. induction kvs as [|[a b] kvs IH]; simpl in Hwt; constructor.
-        - repeat (apply andb_true_iff in Hwt; destruct Hwt as [Hwt ?]). simpl.
-          apply ty_eqb_eq in H2. rewrite H2. auto.
+      apply andb_true_iff in Hwt. destruct Hwt as [Hwt Hkn].
+      unfold keys_nodup in Hkn. apply andb_true_iff in Hkn. destruct Hkn as [Hkn _].
+      rewrite forallb_forall in Hkn.
+      assert (Hw : Forall (fun kv => wt env (fst kv) = true /\ wt env (snd kv) = true) kvs).
+      { clear -Hwt. induction kvs as [|[a b] kvs IH]; simpl in Hwt; constructor.
+        - repeat (apply andb_true_iff in Hwt; destruct Hwt as [Hwt ?]). simpl. auto.
         - repeat (apply andb_true_iff in Hwt; destruct Hwt as [Hwt ?]). now apply IH. }
       apply Forall_flat_map in Hr''. apply Forall_flat_map in He. apply Forall_flat_map in Hd.
       destruct (mapM_all_ok (fun kv => do i <- ENC 0 (snd kv); do jk <- enc_key JK kenc (fst kv); Ok (jk, i)) kvs)
         as [entries Hf].
       { intros [a b] Hin. rewrite Forall_forall in H, Hw, Hr'', He, Hd.
-        destruct (H _ Hin) as [_ Hb]. destruct (Hw _ Hin) as [Hwa [Hba Hwb]].
+        destruct (H _ Hin) as [_ Hb]. destruct (Hw _ Hin) as [Hwa Hwb]. assert (Hka := Hkn _ Hin).
         specialize (He _ Hin). apply Forall_app in He. destruct He as [Hea Heb].
         specialize (Hd _ Hin). apply Forall_app in Hd. destruct Hd as [_ Hdb]. simpl in *.
         destruct (Hb Hwb (Hr'' _ Hin) Heb Hdb 0%nat) as [oi Hoi]; [reflexivity|].
         rewrite Hoi. simpl.
-        destruct (key_shape _ _ Hwa Hba) as [[bb [l [Ea _]]]|[n [bb [l [Ea _]]]]]; subst a; simpl in *;
-          inversion Hea as [|? ? [_ [jk Hjk]] _]; subst; simpl in Hjk; rewrite Hjk; simpl; eauto. }
+        destruct (enc_key_ok a Hka Hea) as [kj Hkj]. rewrite Hkj. simpl. eauto. }
       rewrite Hf. simpl. eauto.
     - simpl in Hwt. apply andb_true_iff in Hwt. destruct Hwt as [Hi _].
       rewrite (Hpn Hi). simpl. eauto.
